@@ -77,42 +77,46 @@ def dotReject (body : Bytes) : Bool :=
    | _ :: 0x2E :: l => dotSegAt l
    | _ => false) || slashDotScan (body.drop 1)
 
+/-- what follows the host: path body (with its leading '/'), query, fragment -/
+def restScan (rest : Bytes) : Option (Option Bytes × Option Bytes × Option Bytes) :=
+  match rest with
+  | [] => some (none, none, none)
+  | c :: r =>
+    if c == 0x2F then (pathScan r).map (fun p => (some (c :: p.1), p.2))
+    else if c == 0x3F then (queryScan r).map (fun q => (none, some q.1, q.2))
+    else (if hashScan r then some (none, none, some r) else none)
+
+/-- the dot-segment rejection, when there is a path -/
+def dotRejectOpt (path : Option Bytes) : Bool := match path with | some body => dotReject body | none => false
+
+/-- "Digit-led hosts are IPv4/numeric; skip before scanning." -/
+def headIsDigit (l : Bytes) : Bool := match l.head? with | some c0 => 0x30 ≤ c0.toNat && c0.toNat ≤ 0x39 | none => false
+
 /-- `try_parse_simple_absolute<ada::url>(input, out)`: the fields written on success -/
 def trySimple (input : Bytes) : Option Rec :=
   if input.length < 8 then none else
   match schemeWindow input with
   | none => none
   | some (https, after) =>
-    match after with
-    | [] => none                              -- host_start == host_end
-    | c0 :: _ =>
-      if c0 == 0x2F || c0 == 0x5C then none
-      else if 0x30 ≤ c0.toNat && c0.toNat ≤ 0x39 then none
-      else
-        match hostScan after with
-        | none => none
-        | some (host, rest) =>
-          if host.isEmpty then none
-          else if host.length > 253 then none
-          else
-            let hv := host.map toLowerByte
-            if HostKernels.isIpv4 hv then none
-            else if HostParse.hasXnDash hv then none
+    if after.isEmpty then none                                              -- host_start == host_end
+    else if after.head? == some 0x2F || after.head? == some 0x5C then none
+    else if headIsDigit after then none
+    else
+      match hostScan after with
+      | none => none
+      | some (host, rest) =>
+        if host.isEmpty then none
+        else if host.length > 253 then none
+        else if HostKernels.isIpv4 (host.map toLowerByte) then none
+        else if HostParse.hasXnDash (host.map toLowerByte) then none
+        else
+          match restScan rest with
+          | none => none
+          | some (path, query, hash) =>
+            if dotRejectOpt path then none
             else
-              let tail : Option (Option Bytes × Option Bytes × Option Bytes) :=
-                match rest with
-                | [] => some (none, none, none)
-                | c :: r =>
-                  if c == 0x2F then (pathScan r).map (fun p => (some (c :: p.1), p.2))
-                  else if c == 0x3F then (queryScan r).map (fun q => (none, some q.1, q.2))
-                  else (if hashScan r then some (none, none, some r) else none)
-              match tail with
-              | none => none
-              | some (path, query, hash) =>
-                if (match path with | some body => dotReject body | none => false) then none
-                else
-                  some { scheme := if https then [0x68, 0x74, 0x74, 0x70, 0x73] else [0x68, 0x74, 0x74, 0x70], special := true,
-                         username := [], password := [], host := some hv, port := none,
-                         path := path.getD [0x2F], query := query, hash := hash, opq := false }
+              some { scheme := if https then [0x68, 0x74, 0x74, 0x70, 0x73] else [0x68, 0x74, 0x74, 0x70], special := true,
+                     username := [], password := [], host := some (host.map toLowerByte), port := none,
+                     path := path.getD [0x2F], query := query, hash := hash, opq := false }
 
 end AdaVerif.Model.SimpleAbs
